@@ -151,8 +151,17 @@ func (o *OpenAPI3Importer) convertSpec(spec *openapi3.T) (string, error) {
 	for _, k := range methodDisplayOrder {
 		endpoints[k] = nil
 	}
-	for path, ep := range spec.Paths.Map() {
-		meps, err := o.buildEndpoint(path, ep)
+	// in path order: building an endpoint also adds the types its responses need, two of which can have the same
+	// name (_a_200 for the 200 response of both GET /a and POST /a), and the sort of the types keeps such pairs in
+	// the order they were added in.
+	paths := spec.Paths.Map()
+	pathNames := make([]string, 0, len(paths))
+	for path := range paths {
+		pathNames = append(pathNames, path)
+	}
+	sort.Strings(pathNames)
+	for _, path := range pathNames {
+		meps, err := o.buildEndpoint(path, paths[path])
 		if err != nil {
 			return "", err
 		}
@@ -588,7 +597,8 @@ func (o *OpenAPI3Importer) buildEndpoint(path string, item *openapi3.PathItem) (
 		return nil, err
 	}
 
-	for method, op := range ops {
+	for _, method := range methodDisplayOrder {
+		op := ops[method]
 		if op == nil {
 			continue
 		}
